@@ -152,12 +152,43 @@ impl<'a> fmt::Display for AtPrec<'a> {
     }
 }
 
+/// Writes an identifier so that the query lexer reads the same name back:
+/// as is when it is a plain word, in double quotes otherwise.
+fn write_ident(fmt: &mut fmt::Formatter<'_>, name: &str) -> fmt::Result {
+    use crate::parsing::text_query::{Token, TokenIterator};
+    let mut tokens = TokenIterator::new(name);
+    let plain = matches!(tokens.next(), Some(Token::Ident(ref s)) if s == name)
+        && matches!(tokens.next(), Some(Token::Eof));
+    if plain {
+        return write!(fmt, "{}", name);
+    }
+    write!(fmt, "\"")?;
+    for c in name.chars() {
+        if c == '"' || c == '\\' {
+            write!(fmt, "\\")?;
+        }
+        write!(fmt, "{}", c)?;
+    }
+    write!(fmt, "\"")
+}
+
 fn recurse(expr: &Expr, fmt: &mut fmt::Formatter<'_>, prec: Precedence) -> fmt::Result {
     {
         {
             match *expr {
-                Expr::Unit { ref name } => write!(fmt, "{}", name),
-                Expr::Quote { ref string } => write!(fmt, "'{}'", string),
+                Expr::Unit { ref name } => write_ident(fmt, name),
+                Expr::Quote { ref string } => {
+                    write!(fmt, "'")?;
+                    for c in string.chars() {
+                        match c {
+                            '\'' => write!(fmt, "\\'")?,
+                            '\n' => write!(fmt, "\\n")?,
+                            '\t' => write!(fmt, "\\t")?,
+                            c => write!(fmt, "{}", c)?,
+                        }
+                    }
+                    write!(fmt, "'")
+                }
                 Expr::Const { ref value } => {
                     let (_exact, val) = value.to_string(10, Digits::Default);
                     write!(fmt, "{}", val)
@@ -246,7 +277,8 @@ fn recurse(expr: &Expr, fmt: &mut fmt::Formatter<'_>, prec: Precedence) -> fmt::
                     if prec < Precedence::Add {
                         write!(fmt, "(")?;
                     }
-                    write!(fmt, "{} of ", property)?;
+                    write_ident(fmt, property)?;
+                    write!(fmt, " of ")?;
                     // the parser reads the operand of `of` with parse_juxt
                     recurse(expr, fmt, Precedence::Mul)?;
                     if prec < Precedence::Add {
